@@ -22,7 +22,7 @@ CHECKS = {
             "Scripted transport calls the same protocol callbacks as the real ones; virtual clock; protocol_fsm.dt (queue tie-break) left on the wall clock; callers use distinct request contexts except deliberate identical twins.",
             "client-boundary history + executable oracle over fault-scripted episodes on a virtual clock", "§3 C07"),
     "C08": ("fault_enumeration",
-            "Write-ledger monitor over the same episode runner: per command, transmissions <= 1+min(max_retries,3) and == that when it fails for 'maximum retries'; a further transmission exists whenever the caller's timeout still allowed one; echo-less waits are 0.5*2^m and double (cap 4 s); no transmission after the caller's return event; command instances never interleave (A,B,A); at each dequeue the started command is minimal by (priority, queue-entry order) among live queued commands; callers that time out while queued are never transmitted.",
+            "Write-ledger monitor over the same episode runner: per command, transmissions <= 1+min(max_retries,3) and == that when it fails for 'maximum retries'; a further transmission exists whenever the caller's timeout still allowed one; echo-less waits are 0.5*2^m and double (cap 4 s); no transmission after the caller's return event; command instances never interleave (A,B,A); at each dequeue the started command is minimal by (priority, queue-entry order) among live queued commands; callers that time out while queued are never transmitted; the count / give-up / after-completion / interleaving clauses are judged a second time on the bytes written to the fake serial port by the real PortTransport (integration slice with heavy echo/reply loss in half of its episodes).",
             "Back-off clause applied to echo-less attempts (when the echo arrived and only the reply is missing the code keeps the wait constant: recorded, not judged); queue order judged at the dequeue tap (a time marker inside the library) against call/inner-call events at the boundary.",
             "write-boundary ledger + executable oracle over fault-scripted episodes on a virtual clock", "§3 C08"),
     "C09": ("fault_enumeration",
